@@ -2,7 +2,7 @@
    ValidProofs.v discharged for the math, html/url, string and array filters. *)
 From LV Require Import Base Consts Value Stack Utf8 Filters_math Filters_html Filters_seq Eval BaseLemmas
   Utf8Proofs ValueProofs SafeProofs ValidProofs.
-From LV Require Import Filters_date ValidDate.
+From LV Require Import Filters_date Filters_extra ValidDate.
 Require Import ZifyBool ZifyNat ZifyN.
 
 Lemma sv_incl a b : incl a b -> sv b = true -> sv a = true.
@@ -291,6 +291,35 @@ Proof.
   destruct (Strftime.strftime t (c :: fmt)) as [o| | |] eqn:Es; try discriminate. inversion E; subst.
   cbn [vv]. eapply strftime_sv; [exact Hf|exact Es].
 Qed.
+(* the jekyll / shopify filters *)
+Lemma forallb_removelast {A} (f : A -> bool) l : forallb f l = true -> forallb f (removelast l) = true.
+Proof.
+  induction l as [|x [|y t] IH]; try reflexivity. intro H. cbn [forallb] in H. apply andb_true_iff in H as [H1 H2].
+  change (removelast (x :: y :: t)) with (x :: removelast (y :: t)). cbn [forallb]. rewrite H1. apply IH, H2.
+Qed.
+Lemma sentence_tail_sv conn l : sv conn = true -> forallb vv l = true -> sv (sentence_tail O conn l) = true.
+Proof.
+  intros Hc. induction l as [|v [|w t] IH]; intro H; [reflexivity| |].
+  - cbn [forallb] in H. apply andb_true_iff in H as [Hv _]. cbn [sentence_tail]. rewrite !sv_app, Hc, (render_sv O HO v Hv). reflexivity.
+  - cbn [forallb] in H. apply andb_true_iff in H as [Hv Ht].
+    change (sentence_tail O conn (v :: w :: t)) with ([44;32]%N ++ Value.render O v ++ sentence_tail O conn (w :: t)).
+    rewrite !sv_app, (render_sv O HO v Hv), (IH Ht). reflexivity.
+Qed.
+Lemma extra_filter_vv f v args r : vv v = true -> forallb vv args = true -> extra_filter O f v args = Ok r -> vv r = true.
+Proof.
+  intros Hv Ha E. unfold extra_filter in E.
+  destruct f; destruct args as [|a [|b [|c args']]]; try discriminate; destruct v; try discriminate;
+    cbn [forallb vv] in *; repeat match goal with H : _ && _ = true |- _ => apply andb_true_iff in H as [? ?] end.
+  - inversion E; subst. cbn [vv]. rewrite forallb_app. cbn [forallb]. rewrite Hv. rewrite H. reflexivity.
+  - inversion E; subst. cbn [vv]. apply forallb_removelast, Hv.
+  - inversion E; subst. cbn [vv]. destruct l; [reflexivity|]. cbn [forallb tl] in *. apply andb_true_iff in Hv as [_ Hv]. exact Hv.
+  - inversion E; subst. cbn [vv forallb]. rewrite H, Hv. reflexivity.
+  - destruct l as [|x t]; inversion E; subst; [reflexivity|]. cbn [forallb] in Hv. apply andb_true_iff in Hv as [Hx Ht].
+    cbn [vv]. rewrite sv_app, (kstr_valid x Hx). apply sentence_tail_sv; [reflexivity|exact Ht].
+  - destruct l as [|x t]; inversion E; subst; [reflexivity|]. cbn [forallb] in Hv. apply andb_true_iff in Hv as [Hx Ht].
+    cbn [vv]. rewrite sv_app, (kstr_valid x Hx). apply sentence_tail_sv; [apply kstr_valid; assumption|exact Ht].
+  - destruct (to_integer s); [|discriminate]. inversion E; subst. destruct (z =? 1)%Z; assumption.
+Qed.
 (* what FV of ValidProofs.v asks for *)
 Theorem apply_filter_vv f v args r : vv v = true -> forallb vv args = true -> apply_filter O f v args = Ok r -> vv r = true.
 Proof.
@@ -299,6 +328,7 @@ Proof.
   - destruct args; [apply html_filter_vv; exact Hv|discriminate].
   - apply seq_filter_vv; assumption.
   - apply date_filter_vv; assumption.
+  - apply extra_filter_vv; assumption.
 Qed.
 End FV.
 
